@@ -35,9 +35,14 @@ def _dec(v):
   return INF if v == 'inf' else v
 
 
-def effective(program, base, override=None, instance=None, keys=()):
+ENV_KEY = '__env_consulted__'
+
+
+def effective(program, base, override=None, instance=None, keys=(), environ=None):
+  """environ: extra environment variables for the start-up.  The result also lists (under ENV_KEY) every environment
+  variable name the start-up looked up, so that a caller can explore the value alphabet of the ones it cares about."""
   req = {'program': program, 'base': base, 'override': override, 'instance': instance, 'keys': list(keys),
-         'repo': env.REPO}
+         'repo': env.REPO, 'environ': environ or {}}
   blob = json.dumps(req, sort_keys=True)
   k = hashlib.sha1(blob.encode()).hexdigest()[:16]
   if k in _mem:
@@ -66,7 +71,7 @@ def effective(program, base, override=None, instance=None, keys=()):
     with open(tmp, 'w') as f:
       f.write(lines[-1][7:])
     os.replace(tmp, path)
-  out = {kk: _dec(v) for kk, v in json.load(open(path)).items()}
+  out = {kk: (_dec(v) if kk != ENV_KEY else v) for kk, v in json.load(open(path)).items()}
   _mem[k] = out
   return out
 
@@ -98,7 +103,9 @@ def cache_conf(max_cache, flow, variant='base'):
 
 def cache_limits(max_cache, flow, variant='base'):
   base, override, instance = cache_conf(max_cache, flow, variant)
-  return effective('carbon-cache', base, override, instance, CACHE_KEYS)
+  out = dict(effective('carbon-cache', base, override, instance, CACHE_KEYS))
+  out.pop(ENV_KEY, None)
+  return out
 
 
 def prefetch(combos):
@@ -114,6 +121,8 @@ def apply_cache_limits(settings, variant='base'):
   limits exactly as the daemon's start-up would have left them."""
   eff = cache_limits(settings['MAX_CACHE_SIZE'], bool(settings['USE_FLOW_CONTROL']), variant)
   for k, v in eff.items():
+    if k == ENV_KEY:
+      continue
     if v == MISSING:
       settings.pop(k, None)
     else:
@@ -146,6 +155,41 @@ def _child():
     os.environ['GRAPHITE_ROOT'] = root
     os.environ.pop('GRAPHITE_CONF_DIR', None)
     os.environ.pop('GRAPHITE_STORAGE_DIR', None)
+    for k, v in (req.get('environ') or {}).items():
+      os.environ[k] = v
+    # record which environment variables the start-up consults
+    import collections.abc
+    consulted = set()
+    real_environ = os.environ
+
+    class RecordingEnviron(collections.abc.MutableMapping):
+      def __getitem__(self, k):
+        consulted.add(k)
+        return real_environ[k]
+
+      def __setitem__(self, k, v):
+        real_environ[k] = v
+
+      def __delitem__(self, k):
+        del real_environ[k]
+
+      def __iter__(self):
+        return iter(real_environ)
+
+      def __len__(self):
+        return len(real_environ)
+
+      def __contains__(self, k):
+        consulted.add(k)
+        return k in real_environ
+
+      def get(self, k, default=None):
+        consulted.add(k)
+        return real_environ.get(k, default)
+
+      def copy(self):
+        return dict(real_environ)
+    os.environ = RecordingEnviron()
     sys.path.insert(0, os.path.join(req['repo'], 'lib'))
     sys.modules.setdefault('carbon.amqp_listener', None)
     from carbon import conf
@@ -178,6 +222,8 @@ def _child():
         out[k] = _enc(getattr(settings, k))
       except (KeyError, AttributeError):
         out[k] = MISSING
+    out[ENV_KEY] = sorted(k for k in consulted if isinstance(k, str))
+    os.environ = real_environ
     print('RESULT ' + json.dumps(out))
   finally:
     shutil.rmtree(root, ignore_errors=True)
